@@ -1,7 +1,7 @@
 """C01 - space packet primary header: exact encoding, bijection, refusals."""
 from __future__ import annotations
 
-from spverif.core.util import attempt, exc_sig, pool_uint, rand_uint
+from spverif.core.util import attempt, exc_sig, pool_uint, rand_uint, hist_len
 from spverif.ref import ccsds as R
 
 SCRIBBLE = True
@@ -275,7 +275,7 @@ def k_hdr_history(ctx, seed):
     if r.random() < 0.3:
         h = sp.SpacePacketHeader.unpack(bytes(h.pack()))
     trail = []
-    for step in range(r.randrange(2, 10)):
+    for step in range(hist_len(r, 2, 10)):
         op = r.choice(("pack", "eq", "packet_type", "sec_header_flag", "apid", "seq_count", "seq_flags", "data_len", "pack"))
         trail.append(op)
         if op == "pack":
